@@ -55,8 +55,9 @@ func verifSimplifyRemoved(idx int) {
 }
 
 // Counter-factual switches for the join / self-intersection-repair findings.
-// verifJoinMode: 0 = unchanged, 1 = never join, 2 = of the joins whose point lies on the neighbouring
-// edge (the proximity test of checkJoinLeft/Right) only those between edges that are exactly collinear
+// verifJoinMode: 0 = unchanged, 1 = never join, 2 = of the joins that the documented tests of
+// checkJoinLeft/Right admit (join point on the neighbouring edge, the two edge tops collinear with the
+// rounded join point) only those between edges that are exactly collinear
 // with each other (both end points of one edge on the line of the other) are made.
 var (
 	verifJoinMode              int
@@ -84,6 +85,10 @@ func verifSkipJoin(e, other *Active, pt Point64, checkCurrX bool) bool {
 				return false
 			}
 		} else if e.curX != other.curX {
+			return false
+		}
+		// ... and that the documented collinearity test (through the rounded point) admits
+		if !isCollinear(e.top, pt, other.top) {
 			return false
 		}
 		return !(isCollinear(e.bot, e.top, other.top) && isCollinear(e.bot, e.top, other.bot))
